@@ -1,15 +1,31 @@
 """C04 - barriers, parallel bound, stop at first failure: real canvas runs driven through gated probe steps vs the
-transition system (eager schedule) and the trace oracle."""
+transition system (eager schedule) and the trace oracle; lanes of their own for the skip set of a resumed invocation
+(-s), for a hook that reads its standard input, and for /repo's robsd-wait."""
 import hashlib, json, glob, os
 from concurrent.futures import ThreadPoolExecutor
 import common, orch_env, orch_e2e
 
 PID = 'C04'
-TRANSLATORS = ['t_orch']      # util.sh robsd() / step_exec_job / trap_exit / lock_* and canvas -> gen/Gen_Orch.v
+TRANSLATORS = ['t_orch']      # util.sh robsd() / step_exec_job / trap_exit / lock_* / robsd_hook, canvas, robsd-wait.c's stub -> gen/Gen_Orch.v
 TRUSTED = orch_env.SHIMS_USED + [
-    'ASSUMED: the contract of robsd-wait (returns when one / all of the given pids are gone, prints those still running); the shell\'s &, $!, set -e and pipeline semantics are bash\'s; '
-    'only the bookkeeping of the loop is proved',
-    'the harness fixes the completion order with gate files and lets the main loop run as far as it can in between (eager schedule); the theorems hold for every schedule']
+    'ASSUMED: the contract of robsd-wait (returns when one / all of the given pids are gone, prints those still running) - read off robsd-wait.c, '
+    'which is NOT executed, modelled or translated (kqueue; the build outside OpenBSD is a stub, see the robsd-wait lane); the shell\'s &, $!, '
+    'set -e and pipeline semantics are bash\'s; only the bookkeeping of the loop is proved',
+    'the harness fixes the completion order with gate files and lets the main loop run as far as it can in between (eager schedule); the theorems hold for every schedule',
+    'timing: after the predicted starts have appeared the harness waits half the start-up latency observed in this very run (at least 40 ms, at most '
+    '0.5 s) before it accepts the round - an over-eager start that needs longer than that to show is ordered after the next completion and is then '
+    'judged by the trace oracle only (ncpu bound / barrier on the recorded order), not by the round comparison']
+
+SIG_SKIP_RESUME = 'command-line-skip-ignored-on-resume'
+SIG_HOOK_STDIN = 'hook-reading-stdin-swallows-schedule'
+SIG_SAME_DIR = 'same-directory-resume-not-refused'
+SIG_REFUSED_MAILS = 'refused-resume-reports-and-mails-again'
+SIG_SKIP_END = 'skipped-end-still-hooked-and-reached'
+SIG_SKIP_END_PAR = 'skipped-end-exit-trap-while-parallel-step-runs'
+
+
+def case_key(case):
+    return hashlib.sha1(json.dumps(case, sort_keys=True).encode()).hexdigest()
 
 
 def evaluate(ctx, cases, res, want_account):
@@ -22,114 +38,300 @@ def evaluate(ctx, cases, res, want_account):
     def late(ob):
         # nothing wrong was seen, something expected was not seen in time: the invocation did not finish, or canvas had
         # started only a prefix of what the model starts when the wait ran out (a loaded machine does that too)
-        if ob.get('hung'):
+        if ob.get('hung') or ob.get('setup_failed'):
             return True
         r = ob['rounds'][-1] if ob.get('rounds') else None
         return bool(r and r['model_starts'] != r['impl_starts'] and r['model_starts'][:len(r['impl_starts'])] == r['impl_starts'])
+    retried = 0
     for i, ob in enumerate(obs):
-        if late(ob):
-            # repeated alone with six times the waiting time: a real hang or a step that never starts shows again
-            orch_e2e.SCALE = 6.0
+        if late(ob) and retried < 4:
+            # repeated alone with four times the waiting time: a real hang or a step that never starts shows again.  At most four
+            # cases are repeated (on the unchanged tree a late case is rare; a changed loop that hangs would otherwise keep
+            # the check busy for an hour) - the others are judged as they were observed
+            retried += 1
+            orch_e2e.SCALE = 4.0
             try:
                 obs[i] = orch_e2e.run_case(ctx, impl, drv, cases[i])
             finally:
                 orch_e2e.SCALE = 1.0
             res.count('repeated alone after a wait ran out')
     for case, ob in zip(cases, obs):
-        res.evaluations += 1
-        key = hashlib.sha1(json.dumps(case, sort_keys=True).encode()).hexdigest()
-        npar = sum(1 for s in case['steps'] if s['parallel'] and s['name'] not in case['skip'])
-        nsync = sum(1 for s in case['steps'] if not s['parallel'] and s['name'] not in case['skip'])
-        if npar >= 1 and nsync >= 1:
-            res.nontrivial.add(key)
-        res.count('ncpu=%d' % case['ncpu'])
-        res.count('steps=%d' % len(case['steps']))
-        if ob.get('model_error') or ob.get('hung'):
-            res.disagreements.append({'case': case, 'why': 'model error' if ob.get('model_error') else 'invocation hung', 'out': ob.get('out')})
-            continue
-        bad = next((r for r in ob['rounds'] if r['model_starts'] != r['impl_starts']), None)
-        st, ids = orch_e2e.step_toks(case)
-        final = orch_e2e.model(drv, case, ob['rounds'][-1]['finished'] if not bad else [])
-        rows = ob.get('rows', [])
-        irows = ' '.join('%s:%s:%s:%s' % (r['step'], r['name'].encode().hex(), r['exit'], r['skip']) for r in rows)
-        if bad:
-            res.disagreements.append({'case': case, 'why': 'after %s finished the model starts %s, canvas started %s' % (bad['finished'], bad['model_starts'], bad['impl_starts'])})
-        elif final:
-            mstatus = final['eff'][0]
-            if final['rows'] != irows or (ob['rc'] != int(mstatus) and not case['detached']):
-                res.disagreements.append({'case': case, 'why': 'final records / status', 'model': [final['rows'], mstatus], 'impl': [irows, ob['rc']]})
-            # the hook calls in order: one per finished step (the harness fixes the completion order), then the end
-            # hook of the exit trap exactly when the model's trap_exit says so
-            mh = [(bytes.fromhex(h.split(':')[0]).decode('latin1') if h.split(':')[0] != '-' else '', h.split(':')[1]) for h in final['hooks']]
-            if final['eff'][2] == '1':
-                mh.append(('end', '0'))
-            ih = [tuple(h.split()[1:3]) for h in ob.get('hooks', [])]
-            if want_account and mh != ih:
-                res.disagreements.append({'case': case, 'why': 'hook calls', 'model': mh, 'impl': ih})
-            # a failing PARALLEL step alone: end reached, exit status 0, a report (C11_parallel_failure_alone_exits_zero)
-            codes = {s['name']: s['exit'] for s in case['steps']}
-            started = [t[1] for t in ob.get('trace', []) if t[0] == 'start']
-            if final['mode'] == 'done' and any(codes[n] != 0 for n in started):
-                res.count('parallel-failure-exit: end reached with a failed parallel step')
-                if not case['detached'] and (ob['rc'] != 0 or (want_account and not ob.get('report'))):
-                    res.disagreements.append({'case': case, 'why': 'parallel-only failure: the model says exit 0 and a report', 'impl': [ob['rc'], ob.get('report')]})
-        # ---- oracle on what really happened (C04): order of starts and ends, exit status, end recorded
-        tr = ob.get('trace', [])
-        toks = ['oktrace', str(case['ncpu']), str(ob['rc'] if not case['detached'] else (0 if any(r['name'] == 'end' for r in rows) else 1)),
-                '1' if any(r['name'] == 'end' for r in rows) else '0'] + st + [str(len(case['skip']))] + [n.encode().hex() for n in case['skip']]
-        toks.append(str(len(tr)))
-        for t in tr:
-            toks += (['S', t[1].encode().hex()] if t[0] == 'start' else ['E', t[1].encode().hex(), t[2]])
-        ok = common.run_driver(drv, [' '.join(toks)])[0]
-        if not want_account and ok != '1':
-            res.oracle_failures.append({'case': case, 'signature': 'order-or-bound-violated',
-                                        'what': 'observed starts/ends %s with exit %s break the barrier / ncpu bound / skip / stop-at-failure rules' % (tr, ob['rc'])})
-        if want_account:
-            executed = [t[1] for t in tr if t[0] == 'start']
-            hooks = [h.split()[1:] for h in ob.get('hooks', [])]
-            logs = ob.get('logs', {})
-            t2 = ['okacct'] + st + [str(len(case['skip']))] + [n.encode().hex() for n in case['skip']]
-            t2 += [str(len(executed))] + [n.encode().hex() for n in executed]
-            t2 += [str(len(rows))]
-            for r in rows:
-                t2 += [r['step'], r['name'].encode().hex(), r['exit'], r['skip']]
-            t2 += [str(len(logs))]
-            for k, v in logs.items():
-                t2 += [k, '1' if v else '0']
-            t2 += [str(len(hooks))]
-            for h in hooks:
-                t2 += [h[0].encode().hex(), h[1]]
-            t2 += ['1' if all(ob['lock_samples']) else '0', '1' if ob.get('lock_after') else '0', '1' if ob.get('report') else '0',
-                   str(ob.get('mails', 0)), '1' if case['detached'] else '0']
-            ok2 = common.run_driver(drv, [' '.join(t2)])[0]
-            if ok2 != '1':
-                res.oracle_failures.append({'case': case, 'signature': 'accounting-violated',
-                                            'what': 'records %s hooks %s logs %s lock_during %s lock_after %s report %s mails %s' % (
-                                                irows, hooks, logs, ob['lock_samples'], ob.get('lock_after'), ob.get('report'), ob.get('mails'))})
-            sec = ob.get('second')
-            if sec is not None:
-                res.count('second invocation')
-                if sec['rc'] == 0 or not sec['lock_same'] or not sec['first_untouched'] or len(sec['builddirs_after']) != 1:
-                    res.oracle_failures.append({'case': case, 'signature': 'second-invocation-not-refused-cleanly', 'what': json.dumps(sec)})
+        judge(ctx, drv, res, case, ob, want_account)
     return res
 
 
+def judge_second(res, case, sec):
+    """C11: a second invocation started meanwhile is refused without touching the first - for EVERY directory it names"""
+    res.count('second invocation: %s' % sec['kind'])
+    clean = sec['rc'] != 0 and not sec['not_refused'] and sec['lock_same'] and sec['first_untouched'] and sec['dirs_same']
+    if not clean:
+        # the finding is pinned by the CASE (the second invocation names the directory of the running one) and by the
+        # OBSERVATION (it was not refused, and what it started is a step the first invocation has in flight)
+        inflight = set(n for n in sec.get('extra_starts') or [])
+        if sec['kind'] == 'resume-running' and sec['not_refused'] and inflight and sec['lock_same']:
+            sig = SIG_SAME_DIR
+        else:
+            sig = 'second-invocation-not-refused-cleanly'
+        res.oracle_failures.append({'case': case, 'signature': sig, 'what': json.dumps(sec)})
+    elif sec['mails_delta'] or sec['endhook_delta']:
+        # refused, first untouched - but the refused invocation's exit trap mailed / ran the end hook of the directory it named
+        if sec['kind'] == 'resume-old':
+            sig = SIG_REFUSED_MAILS
+        else:
+            sig = 'second-invocation-not-refused-cleanly'
+        res.oracle_failures.append({'case': case, 'signature': sig, 'what': json.dumps(sec)})
+
+
+def judge(ctx, drv, res, case, ob, want_account):
+    key = case_key(case)
+    if ob.get('setup_failed'):
+        res.tie_errors.append('end-to-end lane: %s (case %s)' % (ob['setup_failed'], json.dumps(case)[:200]))
+        return
+    npar = sum(1 for s in case['steps'] if s['parallel'] and s['name'] not in case['skip'])
+    nsync = sum(1 for s in case['steps'] if not s['parallel'] and s['name'] not in case['skip'])
+    res.count('ncpu=%d' % case['ncpu'])
+    res.count('steps=%d' % len(case['steps']))
+    if any(s['exit'] in orch_e2e.SIGNAL_DEATHS for s in case['steps']):
+        res.count('a step dies of a signal')
+    skip_end = 'end' in case['skip']
+    if skip_end:
+        res.count('end in the skip set')
+    if ob.get('model_error') or ob.get('hung'):
+        res.evaluations += 1
+        res.disagreements.append({'case': case, 'why': 'model error' if ob.get('model_error') else 'invocation hung', 'out': ob.get('out')})
+        return
+    bad = next((r for r in ob['rounds'] if r['model_starts'] != r['impl_starts']), None)
+    if ob.get('aborted_after_second'):
+        # the second invocation was not refused and ran steps of its own: only the rounds up to that point and the second
+        # invocation itself have a verdict
+        res.evaluations += 1
+        if bad:
+            res.disagreements.append({'case': case, 'why': 'after %s finished the model starts %s, canvas started %s' % (bad['finished'], bad['model_starts'], bad['impl_starts'])})
+        if want_account:
+            judge_second(res, case, ob['second'])
+        else:
+            res.count('no verdict: second invocation not refused, run abandoned (judged by C11)')
+        return
+    res.evaluations += 1
+    if npar >= 1 and nsync >= 1:
+        res.nontrivial.add(key)
+    st, ids = orch_e2e.step_toks(case)
+    final = orch_e2e.model(drv, case, ob['rounds'][-1]['finished'] if not bad else [])
+    rows = ob.get('rows', [])
+    irows = ' '.join('%s:%s:%s:%s' % (r['step'], r['name'].encode().hex(), r['exit'], r['skip']) for r in rows)
+    hooks = [h.split()[1:] for h in ob.get('hooks', [])]
+    if bad:
+        res.disagreements.append({'case': case, 'why': 'after %s finished the model starts %s, canvas started %s' % (bad['finished'], bad['model_starts'], bad['impl_starts'])})
+    elif final:
+        mstatus = final['eff'][0]
+        if final['rows'] != irows or (ob['rc'] != int(mstatus) and not case['detached']):
+            res.disagreements.append({'case': case, 'why': 'final records / status', 'model': [final['rows'], mstatus], 'impl': [irows, ob['rc']]})
+        # the hook calls in order: one per finished step (the harness fixes the completion order), then the end
+        # hook of the exit trap exactly when the model's trap_exit says so
+        mh = [(bytes.fromhex(h.split(':')[0]).decode('latin1') if h.split(':')[0] != '-' else '', h.split(':')[1]) for h in final['hooks']]
+        if final['eff'][2] == '1':
+            mh.append(('end', '0'))
+        ih = [tuple(h[0:2]) for h in hooks]
+        if skip_end:
+            # when the loop runs out of schedule lines the exit trap's end hook may come before the hooks of steps still running
+            mh, ih = sorted(mh), sorted(ih)
+        if want_account and mh != ih:
+            res.disagreements.append({'case': case, 'why': 'hook calls', 'model': mh, 'impl': ih})
+        # a failing PARALLEL step alone: end reached, exit status 0, a report (C11_parallel_failure_alone_exits_zero)
+        codes = {s['name']: s['exit'] for s in case['steps']}
+        started = [t[1] for t in ob.get('trace', []) if t[0] == 'start']
+        if final['mode'] == 'done' and any(codes[n] != 0 for n in started):
+            res.count('parallel-failure-exit: end reached with a failed parallel step')
+            if not case['detached'] and (ob['rc'] != 0 or (want_account and not ob.get('report'))):
+                res.disagreements.append({'case': case, 'why': 'parallel-only failure: the model says exit 0 and a report', 'impl': [ob['rc'], ob.get('report')]})
+    # ---- oracle on what really happened (C04): order of starts and ends, exit status, end recorded
+    tr = ob.get('trace', [])
+    end_recorded = any(r['name'] == 'end' and r['skip'] != '1' for r in rows)
+    exit_status = ob['rc'] if not case['detached'] else (0 if any(r['name'] == 'end' for r in rows) else 1)
+    if skip_end:
+        # end is skipped: "the end step is recorded only if ..." has nothing to record; the oracle's conjunct
+        # "end recorded iff no synchronous step failed" is given the exit status instead (it then says: exit status 0 iff
+        # no synchronous step failed - twice), everything else is judged as always
+        end_recorded = (exit_status == 0)
+    toks = ['oktrace', str(case['ncpu']), str(exit_status), '1' if end_recorded else '0'] + st + [str(len(case['skip']))] + [n.encode().hex() for n in case['skip']]
+    toks.append(str(len(tr)))
+    for t in tr:
+        toks += (['S', t[1].encode().hex()] if t[0] == 'start' else ['E', t[1].encode().hex(), t[2]])
+    ok = common.run_driver(drv, [' '.join(toks)])[0]
+    if not want_account and ok != '1':
+        res.oracle_failures.append({'case': case, 'signature': 'order-or-bound-violated',
+                                    'what': 'observed starts/ends %s with exit %s break the barrier / ncpu bound / skip / stop-at-failure rules' % (tr, ob['rc'])})
+    if want_account:
+        judge_account(ctx, drv, res, case, ob, st, rows, irows, hooks, tr, skip_end)
+        if ob.get('second') is not None:
+            judge_second(res, case, ob['second'])
+
+
+def judge_account(ctx, drv, res, case, ob, st, rows, irows, hooks, tr, skip_end):
+    """C11: the accounting oracle on what the real canvas left behind"""
+    executed = [t[1] for t in tr if t[0] == 'start']
+    logs = ob.get('logs', {})
+    skip = list(case['skip'])
+    report, mails = ob.get('report'), ob.get('mails', 0)
+    samples = list(ob['lock_samples'])
+    if skip_end:
+        # PROPERTY READING for a configuration whose skip set holds end: end has its skip record (exit 0), NO hook call, it is
+        # not "reached": report and mail exactly when a step failed; the lock names the invocation as long as a step runs.
+        # The deviations the code shows in exactly this input class are reported under their own signatures; the REST of the
+        # observation (end's row and hook taken out, report / mail taken as the property wants them) goes through the oracle.
+        end_rows = [r for r in rows if r['name'] == 'end']
+        end_hooks = [h for h in hooks if h[0] == 'end']
+        failed = any(r['skip'] != '1' and r['exit'] != '0' for r in rows)
+        dev = []
+        if end_hooks:
+            dev.append('the end hook ran %d time(s) for the skipped end step%s' % (len(end_hooks), ' on a FAILED build' if ob['rc'] != 0 else ''))
+        if report and not failed:
+            dev.append('a report was written as if end had been reached')
+        if dev and end_hooks and len(end_rows) == 1 and end_rows[0]['skip'] == '1' and end_rows[0]['exit'] == '0':
+            res.oracle_failures.append({'case': case, 'signature': SIG_SKIP_END, 'what': '; '.join(dev) + '; records %s hooks %s rc %s' % (irows, hooks, ob['rc'])})
+            rows = [r for r in rows if r['name'] != 'end']
+            hooks = [h for h in hooks if h[0] != 'end']
+            skip = [n for n in skip if n != 'end']
+            if not failed:
+                report, mails = False, 0
+        if ob['felloff_lock_samples']:
+            res.count('end skipped, last steps parallel: the loop runs out of lines while steps run')
+            if not all(ob['felloff_lock_samples']):
+                res.oracle_failures.append({'case': case, 'signature': SIG_SKIP_END_PAR,
+                                            'what': 'the loop ran out of schedule lines without the barrier: while parallel steps were still at their gates the lock '
+                                                    'file no longer named the invocation (exit trap already run); hooks in order %s' % hooks})
+            else:
+                samples += ob['felloff_lock_samples']
+    if not samples:
+        # no round had a step of this invocation waiting at its gate (everything skipped): the clause "the lock file named the
+        # invocation while it ran" gets no verdict; the rest of the oracle does
+        res.count('no verdict: lock never sampled (no step ran)')
+    t2 = ['okacct'] + st + [str(len(skip))] + [n.encode().hex() for n in skip]
+    t2 += [str(len(executed))] + [n.encode().hex() for n in executed]
+    t2 += [str(len(rows))]
+    for r in rows:
+        t2 += [r['step'], r['name'].encode().hex(), r['exit'], r['skip']]
+    t2 += [str(len(logs))]
+    for k, v in logs.items():
+        t2 += [k, '1' if v else '0']
+    t2 += [str(len(hooks))]
+    for h in hooks:
+        t2 += [h[0].encode().hex(), h[1]]
+    t2 += ['1' if all(samples) else '0', '1' if ob.get('lock_after') else '0', '1' if report else '0',
+           str(mails), '1' if case['detached'] else '0']
+    ok2 = common.run_driver(drv, [' '.join(t2)])[0]
+    if ok2 != '1':
+        res.oracle_failures.append({'case': case, 'signature': 'accounting-violated',
+                                    'what': 'records %s hooks %s logs %s lock_during %s lock_after %s report %s mails %s' % (
+                                        irows, hooks, logs, samples, ob.get('lock_after'), report, mails)})
+    # the duration clause: every record of an executed step carries a duration that is not negative and is the time the
+    # step really ran - between (gate opened - start seen) - 1 and (hook seen - launch) + 1 in whole seconds
+    for r in rows:
+        tm = ob['times'].get(r['name'])
+        if r['skip'] == '1' or r['name'] == 'end' or not tm or 'gate_opened' not in tm or 'hook_seen' not in tm:
+            continue
+        try:
+            d = int(r['duration'])
+        except (KeyError, ValueError):
+            d = None
+        lo = int(tm['gate_opened'] - tm['start_seen']) - 1
+        hi = int(tm['hook_seen'] - ob['launch']) + 2
+        res.count('duration compared with the real run time')
+        if d is None or d < 0 or d < lo or d > hi:
+            res.oracle_failures.append({'case': case, 'signature': 'duration-not-the-run-time',
+                                        'what': 'step %s ran at least %d s and at most %d s by the harness clock, its record says duration %r' % (r['name'], lo, hi, r.get('duration'))})
+            break
+
+
+# ---- lanes with a scenario of their own ---------------------------------------------------------------------------------
+def gen_skip_resume(rng):
+    n = rng.randint(3, 5)
+    names = orch_e2e.NAMES[:n]
+    f = rng.randrange(1, n - 1)                 # the step that fails: not the first (the resume point must be >= 2)
+    return {'lane': 'skip-on-resume', 'names': names, 'fail': names[f], 'skip': names[rng.randrange(f + 1, n)]}
+
+
+def lane_skip_on_resume(ctx, res, cases):
+    """"skipped steps never run" for "skip sets from ... command line" when the invocation is a resumed one"""
+    impl = ctx.build_impl()
+    for case in cases:
+        ob = orch_e2e.run_skip_on_resume(ctx, impl, case)
+        if ob.get('setup_failed'):
+            res.tie_errors.append('skip-on-resume lane: ' + ob['setup_failed'])
+            continue
+        res.evaluations += 1
+        res.nontrivial.add(case_key(case))
+        res.count('lane skip-on-resume')
+        if case['skip'] in ob['started']:
+            # pinned by the case (a -s option on a resume whose resume point is >= 2) and the observation (that very step ran)
+            sig = SIG_SKIP_RESUME if (ob['resumed_at'] or 0) >= 2 else 'skipped-step-ran'
+            res.oracle_failures.append({'case': case, 'signature': sig,
+                                        'what': 'canvas -r <dir> -s %s resumed at step %s and started %s; records %s' % (case['skip'], ob['resumed_at'], ob['started'], ob['rows'])})
+        elif ob['rc'] != 0:
+            res.oracle_failures.append({'case': case, 'signature': 'resumed-invocation-failed', 'what': json.dumps(ob)[:600]})
+
+
+def lane_hook_stdin(ctx, res, cases):
+    """a hook is a configuration value like any other: whatever it does with its standard input, the schedule is run"""
+    impl = ctx.build_impl()
+    for case in cases:
+        ob = orch_e2e.run_hook_stdin(ctx, impl, case)
+        res.evaluations += 1
+        res.nontrivial.add(case_key(case))
+        res.count('lane hook-stdin')
+        complete = ob['started'] == case['names'] and ob['rc'] == 0 and any(r[1] == 'end' for r in ob['rows'])
+        if not complete:
+            # pinned by the case (the hook reads its input) and the observation (the hook did read schedule lines, the
+            # invocation ended with status 0 having started only a prefix of the schedule, no end record)
+            swallowed = bool(ob['hook_read'].strip()) and ob['rc'] == 0 and ob['started'] == case['names'][:len(ob['started'])] and not any(r[1] == 'end' for r in ob['rows'])
+            res.oracle_failures.append({'case': case, 'signature': SIG_HOOK_STDIN if swallowed else 'schedule-not-run-to-its-end',
+                                        'what': 'hook that reads its input: started %s of %s, exit %s, records %s, report %s, the hook read %r' % (
+                                            ob['started'], case['names'], ob['rc'], ob['rows'], ob['report'], ob['hook_read'])})
+
+
+def lane_robsd_wait(ctx, res):
+    """robsd-wait.c is an anchor of C04; nothing of it is modelled.  The lane builds and runs it: on this platform it must be the
+    stub (returns at once with status 0, prints nothing, whatever it is given); if it ever BLOCKS on a live process it has become
+    functional here and must replace the stand-in (tie error: the assumption would then be checkable and is not checked)"""
+    ob = orch_e2e.run_robsd_wait(ctx, ctx.build_impl())
+    if ob.get('error'):
+        res.tie_errors.append('robsd-wait lane: /repo\'s robsd-wait does not run: %s' % ob['error'])
+    elif not ob['returned']:
+        res.tie_errors.append('robsd-wait lane: /repo\'s robsd-wait blocks on a live process - it is functional on this platform; run the end-to-end lanes with it instead of tools/orch/robsd-wait')
+    elif ob['rc'] != 0 or ob['out']:
+        res.tie_errors.append('robsd-wait lane: the stub answered rc %s output %r' % (ob['rc'], ob['out']))
+    else:
+        res.count('robsd-wait of /repo is the non-OpenBSD stub (returns at once): the stand-in carries the barrier')
+
+
 def load_corpus(pid):
-    return [json.load(open(p)) for p in sorted(glob.glob(os.path.join(common.VERIF, 'corpus', pid, '*.json')))]
+    d = os.path.join(common.VERIF, 'corpus', pid)
+    if not os.path.isdir(d):
+        raise common.BuildFailure('corpus directory %s is missing' % d)
+    files = sorted(glob.glob(os.path.join(d, '*.json')))
+    if not files:
+        raise common.BuildFailure('corpus directory %s is empty' % d)
+    return [json.load(open(p)) for p in files]
 
 
-RULE = ('canvas configurations of 2-7 gated probe steps (synchronous/parallel, exit codes 0/1/2/124/255, skip sets), ncpu 1-3, a generated completion order, '
-        'foreground and detached, optionally a second invocation started meanwhile; after every completion the model predicts the next starts; '
-        'non-trivial = at least one parallel and one synchronous non-skipped step; distinct by configuration+order')
+RULE = ('canvas configurations of 2-7 gated probe steps (synchronous/parallel, exit codes 0/1/2/124/255 and deaths by SIGSEGV/SIGKILL/SIGABRT, skip sets '
+        'incl. end), ncpu 1-3, a generated completion order, foreground and detached, optionally a second invocation started meanwhile (fresh / resume of '
+        'a prefix-named older directory / background resume of an older finished directory / resume of the running directory); after every completion '
+        'the model predicts the next starts; non-trivial = at least one parallel and one synchronous non-skipped step; distinct by configuration+order; '
+        'plus the lanes skip-on-resume (-s on a resume at step >= 2), hook-stdin (a hook that reads its input) and robsd-wait (the stub is run)')
 
 
 def run(ctx, n=None):
     res = common.Result()
     res.rule = RULE
     n = n or ctx.budget(150, 2500)
-    cases = load_corpus(PID) + [orch_e2e.gen_case(ctx.rng) for _ in range(n)]
+    corpus = load_corpus(PID)
+    cases = [c for c in corpus if 'steps' in c] + [orch_e2e.gen_case(ctx.rng) for _ in range(n)]
     res.samples = cases[:2]
     evaluate(ctx, cases, res, False)
+    lane_skip_on_resume(ctx, res, [c for c in corpus if c.get('lane') == 'skip-on-resume'] + [gen_skip_resume(ctx.rng) for _ in range(ctx.budget(3, 40))])
+    lane_hook_stdin(ctx, res, [c for c in corpus if c.get('lane') == 'hook-stdin'] + [{'lane': 'hook-stdin', 'names': orch_e2e.NAMES[:ctx.rng.randint(2, 5)]} for _ in range(ctx.budget(1, 10))])
+    lane_robsd_wait(ctx, res)
     res.traces_validated = res.evaluations
     return res
 
@@ -141,6 +343,11 @@ def extended_search(ctx, res, proof):
 def replay(ctx, rep):
     case = rep.get('case') or (rep.get('first_disagreements') or [{}])[0].get('case')
     res = common.Result()
-    evaluate(ctx, [case], res, False)
+    if case.get('lane') == 'skip-on-resume':
+        lane_skip_on_resume(ctx, res, [case])
+    elif case.get('lane') == 'hook-stdin':
+        lane_hook_stdin(ctx, res, [case])
+    else:
+        evaluate(ctx, [case], res, False)
     print(json.dumps(case)); print(res.disagreements); print(res.oracle_failures)
     return 1 if (res.disagreements or res.oracle_failures) else 0
